@@ -192,7 +192,7 @@ impl<R: DynamicChannelRegion> RegionHandler for DynamicChannelPlan<R> {
     }
 
     fn get_datarate(&self, dr: u8) -> Option<&Datarate> {
-        R::datarates()[dr as usize].as_ref()
+        R::datarates().get(dr as usize)?.as_ref()
     }
 
     fn select_tx_channel<RNG: RngCore>(
